@@ -2,6 +2,7 @@ SPECIFICATION MCSpec
 CONSTANTS T = 2
  N = 3
  AggMode = "code"
+ Misfiled = TRUE
  FailMode = "abort"
 INVARIANTS TypeOK GroupValid NothingOnFault AllOrNothing PublishOnOK ErrMeansNothing
 CHECK_DEADLOCK FALSE
